@@ -167,11 +167,16 @@ TraceEnd ==
 TraceReimport ==
   /\ IsEvent("reimport")
   /\ LET st == Ev.st IN
-     /\ proposer = st.proposer /\ voters = st.voters /\ rec = RecOf(st)
-     /\ ToSet(onQ) = ToSet(st.onQ) /\ ToSet(offQ) = ToSet(st.offQ) /\ Len(onQ) = Len(st.onQ) /\ Len(offQ) = Len(st.offQ)
-     /\ epoch = st.epoch /\ lastElected = st.lastElected /\ accepted = st.accepted
-     /\ seq = st.seq /\ randao = st.randao /\ pubkeys = ToSet(st.pubkeys) /\ accounts = ToSet(st.accounts)
-     /\ tip = st.tip /\ curKey = st.curKey /\ bridge = st.bridge
+     \* the imported state equals the exported one in every bound slice (C18 binds all of them; C16 the group, ...)
+     /\ B("group") => (/\ proposer = st.proposer /\ voters = st.voters /\ rec = RecOf(st)
+                       /\ ToSet(onQ) = ToSet(st.onQ) /\ ToSet(offQ) = ToSet(st.offQ) /\ Len(onQ) = Len(st.onQ) /\ Len(offQ) = Len(st.offQ)
+                       /\ lastElected = st.lastElected)
+     /\ B("epoch") => epoch = st.epoch
+     /\ B("accepted") => accepted = st.accepted
+     /\ B("seq") => (seq = st.seq /\ randao = st.randao)
+     /\ B("pubkeys") => pubkeys = ToSet(st.pubkeys)
+     /\ B("accounts") => accounts = ToSet(st.accounts)
+     /\ B("bridge") => (tip = st.tip /\ curKey = st.curKey /\ bridge = st.bridge)
      /\ st.unknown = 0
      /\ StateFrom(st)
   /\ UNCHANGED << now, height, bridge, bridgeDirty, acceptedLog, tip, curKey >>
